@@ -50,6 +50,9 @@ type World struct {
 	scratch string
 	curStep int
 
+	// KeepSnaps makes the simulated disk keep a snapshot per physical write
+	// (crash-image checks).
+	KeepSnaps bool
 	// FreeHelpers is set once a free-running iavl goroutine (an exporter kept
 	// open as a pin) shares the disk: per-step storage call counts then depend
 	// on timing and are left out of the event log (results are not).
@@ -101,6 +104,7 @@ func (w *World) makeBackend() error {
 	case "simdb":
 		w.Sim = sim.NewSimDB()
 		w.Sim.AcctLevelDB = w.Cfg.AcctLDB
+		w.Sim.KeepSnaps = w.KeepSnaps
 		db = w.Sim
 	case "memdb":
 		db = dbm.NewMemDB()
